@@ -3,6 +3,13 @@
 and write mutants/RESULTS.md."""
 import os, re, subprocess
 V = os.path.dirname(os.path.dirname(os.path.abspath(__file__)))
+# mutants that do not break their property (kept as negative controls: a check that "caught" them would be over-reaching)
+NOTES = {
+    "C02-1.patch": "equivalent for C02: without check_iv a shortened IV still fails the AEAD tag (GCM) or is refused by the backend (CBC); nothing unauthentic is returned",
+    "C06-4.patch": "equivalent for C06 (and seen by the repository's own tests): signing with a public key still fails, with an AssertionError",
+    "C15-3.patch": "equivalent for C15: a missing / mistyped algorithm-specific member still makes the call fail later (assert / backend error), nothing is produced",
+    "C16-1.patch": "equivalent for C16 (and seen by the repository's own tests): InvalidExchangeKeyError is itself derived from the library's base error",
+}
 rows = []
 for fn in sorted(os.listdir(os.path.join(V, "mutants"))):
     m = re.match(r"(C\d\d)-.*\.patch$", fn)
@@ -13,7 +20,8 @@ for fn in sorted(os.listdir(os.path.join(V, "mutants"))):
     tests = re.search(r"TESTS (\w+)", r.stdout)
     res = re.search(r"C\d\d: exit=\d (\w+)", r.stdout)
     keys = sorted(set(re.findall(r"key=(\S+)", r.stdout)))[:2]
-    rows.append((fn, pid, tests.group(1) if tests else "?", res.group(1) if res else ("PATCH-FAILED" if "PATCH-FAILED" in r.stdout else "?"), ", ".join(keys)))
+    rows.append((fn, pid, tests.group(1) if tests else "?", res.group(1) if res else ("PATCH-FAILED" if "PATCH-FAILED" in r.stdout else "?"),
+                 ", ".join(keys) + ((" " if keys else "") + "[" + NOTES[fn] + "]" if fn in NOTES else "")))
     print(rows[-1], flush=True)
 with open(os.path.join(V, "mutants", "RESULTS.md"), "w") as f:
     f.write("# Hand-written mutants vs. the quick tier of the property's check\n\n'tests' = outcome of the repository's own suite on the mutant "
